@@ -85,6 +85,9 @@ MUTS = {
  "P2_bypass_ext_lagrangian_ignored": ("src/colvarbias_histogram.cpp", "    grid->request_actual_value();", "    ;"),
  "P3_joint_histogram_actual_value_flag": ("src/colvargrid.h", "        use_actual_value[i-1] = true;", "        use_actual_value[i-1] = false;"),
  "P4_map_grid_skips_last_component": ("src/colvargrid.h", "      for (size_t im = 0; im < mult; im++) {\n        this->set_value(ix, other_grid.value(oix, im), im);", "      for (size_t im = 0; im + 1 < mult || im == 0; im++) {\n        this->set_value(ix, other_grid.value(oix, im), im);"),
+ "T1_ti_lagged_uses_current_bin": ("src/colvarbias.cpp", "    if (variables(i)->is_enabled(f_cv_total_force_current_step)) {\n      ti_bin[i] = ti_avg_forces->current_bin_scalar(i);", "    if (true) {\n      ti_bin[i] = ti_avg_forces->current_bin_scalar(i);"),
+ "T2_ti_counts_repeated_step": ("src/colvarbias.cpp", "      if (can_accumulate_data()) {\n        if (cvm::debug()) {\n          cvm::log(\"Accumulating TI forces", "      if (true) {\n        if (cvm::debug()) {\n          cvm::log(\"Accumulating TI forces"),
+ "T3_ti_bound_bin": ("src/colvarbias.cpp", "      // Set the index for use in the next iteration, when total forces come in\n      ti_bin[i] = ti_avg_forces->current_bin_scalar(i);", "      // Set the index for use in the next iteration, when total forces come in\n      ti_bin[i] = ti_avg_forces->current_bin_scalar_bound(i);"),
  "M14_init_from_boundaries_truncates": ("src/colvargrid.h", "      int nbins_round = (int)(nbins+0.5);", "      int nbins_round = (int)(nbins);"),
  "M15_state_sizes_line_missing_value": ("src/colvargrid_def.h", "  for (i = 0; i < nd; i++)\n    os << \" \" << nx[i];", "  for (i = 0; i + 1 < nd; i++)\n    os << \" \" << nx[i];"),
  "M10_raw_values_not_in_address_order": ("src/colvargrid_def.h",
